@@ -9,6 +9,7 @@ Correspondence (model vs real code)
   relabel `from_networkx` on networkx graphs with arbitrary integer or string labels
   dotread hand-made dot texts with arbitrary node names: real pydot parse -> the model's dot-branch relabelling
   read3p  mutated gml / dot texts (no model: the third-party parsers are not modelled)
+  rtripbig  1 MiB files (thorough tier; no model: its list-based edge set is quadratic there), round-trip oracle only
   objects (write / rtrip / rtrip3p with an `origin`): graph OBJECTS of every class of cnfgen.graphs (found by
           introspection), of every constructor function, of every command-line construction (+ modifiers), reached
           by update histories or read from another format — sent to the model as what their views say
@@ -645,6 +646,10 @@ def build(suite, info):
         r = req("rtrip", FMT[fmt], TY[ty], enc_str(name), enc_g(ty, g))
         return Case(suite, r, impl, roundtrip_oracle(ty, fmt, g, name, info.get("via", "stringio")),
                     cls="{}:{}:{}".format(fmt, ty, info.get("shape", "")), nontrivial=graph_nontrivial(g), info=info)
+    if suite == "rtripbig":
+        ty, fmt, g, name = info["ty"], info["fmt"], info["g"], info.get("name", "G")
+        return Case(suite, "ack3p", lambda: ok("-"), roundtrip_oracle(ty, fmt, g, name, info.get("via", "stringio")),
+                    cls="{}:{}:{}".format(fmt, ty, info.get("shape", "")), nontrivial=graph_nontrivial(g), info=info)
     if suite == "rtrip3p":
         ty, fmt, g = info["ty"], info["fmt"], info["g"]
         text = write_text(make_graph(ty, g), ty, fmt, info.get("name"))
@@ -1131,7 +1136,10 @@ def cases(ctx):
                         es = [(v, u) if rng.random() < .4 else (u, v) for u, v in es]
                     g = {"n": n, "edges": es}
                 rng.shuffle(es)
-                infos.append(("rtrip", dict(ty=ty, fmt=fmt, g=g, name="large", shape="large", via=rng.choice(["stringio", "file", "from_file"]))))
+                # the model's edge set is a list (membership is linear): 10^5 edges would cost it minutes per graph, so
+                # the 1 MiB files go through the real code only (round-trip oracle); up to 230 vertices the model reads too
+                infos.append(("rtrip" if n <= 230 else "rtripbig",
+                              dict(ty=ty, fmt=fmt, g=g, name="large", shape="large", via=rng.choice(["stringio", "file", "from_file"]))))
                 if n == 170 and ty != "bipartite":
                     infos.append(("write", dict(ty=ty, fmt=fmt, g=g, name="large", shape="large", via="file")))
     # ---- graph objects of every class / constructor / command-line construction through every writer
